@@ -7,16 +7,17 @@ PROPS = {
         drive=dict(family="genesis", nrand=dict(quick=6, thorough=60), timeout=3600),
         trace=dict(tla="Genesis_Trace.tla", cfg="Genesis_Trace_X01.cfg", steps_per_line=1, timeout=1800),
         level="model_checking",
-        rule="script = (seed, n blocks before the export, k common blocks after the import, profile: tunnels created or "
-             "not, a new signing group proposed (unfinished DKG) or not). Chain A = real BandApp driven through "
+        rule="script = list of runs; run = (seed, n blocks before the export, k common blocks after the import, profile = subset "
+             "of {tunnels created, new signing group proposed (unfinished DKG), transition to the second group proposed, "
+             "MaxDESize lowered by governance}). Chain A = real BandApp driven through "
              "FinalizeBlock/Commit with signed transactions of every band module plus bank/staking/gov (stateful generator: "
              "requests and partial reports, signature requests and partial signatures, votes, prices, tunnels with deposits "
              "and packets, stakes, a group transition through governance); the last two blocks before the export create "
              "work that is still open at the export. Export = app.ExportAppStateAndValidators(false,nil,nil) + every "
              "module's ValidateGenesis; chain B = fresh BandApp InitChain'ed with the exported state, initial height h+1. "
-             "Each script is recorded once per facet (77 store collections of the 8 band modules read by raw prefix "
+             "The runs are recorded once per facet (77 store collections of the 8 band modules read by raw prefix "
              "iteration, 10 transaction groups' result codes, chain.live); evaluations = recorded lines; non-trivial = "
-             "scripts in which at least 45 collections are non-empty at the export",
+             "runs in which at least 45 collections are non-empty at the export",
         assumptions=[
             "the consensus engine is replaced by the harness (proposer = validator 1, votes = validators in the set, "
             "chosen header hash and time); both chains get identical blocks after the import",
